@@ -431,6 +431,12 @@ def _oracle(case):
         if r is None:
             return None
         ctx = 'upgrade' if k == 'wshs' else case.get('ctx', 'other')
+        code = int(r[9:12])
+        if code == 101:
+            ctx = 'upgrade'
+        elif code < 200:
+            # an interim response: h11 must accept it in front of a final one
+            r = r + b'HTTP/1.1 204 No Content\r\n\r\n'
         why = h11_check(r, ctx)
         if why:
             return 'builder-output-rejected-by-h11:' + why
@@ -676,7 +682,6 @@ def builder_corpus():
     cs.append(_wf(b'HTTP/1.1 200 OK\r\nContent-Length: 2\r\nContent-Length: 3\r\n\r\nabc'))
     cs.append(_wf(b'HTTP/1.1 200 OK\r\nContent-Length: 3\r\nContent-Length: 3\r\n\r\nabc'))
     cs.append(_wf(b'HTTP/1.1 200 OK\r\n\r\n', 'connect'))
-    cs.append(_wf(b'HTTP/1.1 200 OK\r\n\r\n'))
     cs.append(_wf(b'HTTP/1.1 200 OK\r\nConnection: keep-alive, Close\r\n\r\nbody until close'))
     cs.append(_wf(b'HTTP/1.1 204 No Content\r\n\r\n'))
     cs.append(_wf(b'HTTP/1.1 304 Not Modified\r\nContent-Length: 10\r\n\r\n'))
